@@ -87,13 +87,13 @@ CHECKS = {
         note=TRUSTED + "; hash collisions excluded; votes genuine unless built otherwise."),
     "C06": dict(
         level="model_checking",
-        technique='TLA+ spec (Handover.tla queues/DueList/AfterDelivery) + TLC exhaustive bounded model with failing blocks, abandoned rounds, engine faults and crashes + TLC trace validation of whole-application histories through the real ABCI surface + TLC liveness check (every enqueued item is eventually handed over under fair good blocks) + export/import cycles',
+        technique='TLA+ spec (Handover.tla queues/DueList/AfterDelivery) + TLC exhaustive bounded model with failing blocks, abandoned rounds, engine faults and crashes + TLC trace validation of whole-application histories through the real ABCI surface + TLC liveness check (every enqueued item is eventually handed over under fair good blocks) + export/import cycles + the locking and bridge modules\' own queues (slices `queues` of Locking.tla / Bridge.tla histories)',
         text='MC_Handover checks handed-is-prefix-of-enqueued, nothing dropped, no duplicates, nonces = counts, caps and only-commit-changes-state over all interleavings within bounds; real histories (real Prepare/Process/Finalize/Commit, real mempool, over-filled queues, faulty proposals, abandoned rounds, crashes) are validated block by block: decoded system transactions = due prefix, consecutive nonces, committed queues only grow at the tail.',
         note=TRUSTED),
     "C07": dict(
         level="model_checking",
         technique='TLA+ trace spec (Trace_Handover exec events: (previous app hash, block) -> result must be single-valued) + replicas and re-execution of every block of real histories',
-        text='Every block is executed on two replicas and re-executed after dropping the uncommitted application; TLC rejects any second, different (app hash, codes, gas, update set, engine calls) for the same (state, block); histories deliberately contain order-sensitive failing batches.',
+        text='Every block is executed on two replicas (which serve different queries and transaction simulations in between) and re-executed after dropping the uncommitted application; TLC rejects any second, different (app hash, codes, gas, update set, engine calls) for the same (state, block); histories deliberately contain order-sensitive failing batches.',
         note=TRUSTED),
     "C08": dict(
         level="model_checking",
